@@ -10,3 +10,20 @@ package grammar
 
 //@ func Selector.String(sel) (res)
 //@   assigns nothing
+
+// Parse is the pigeon engine applied to the rule table. Its contract is the
+// summary of A-ENGINE (assumed): accept/reject is a function of the input and
+// the budget; an accepted input yields a well-formed, freshly allocated tree
+// whose match values have an empty regexp cache.
+//@ func Parse(filename, b, opts) (val, err)
+//@   trusted
+//@   requires allCacheOK()
+//@   ensures (err == nil) == parseAccepts(b, gBudget(opts))
+//@   ensures err == nil ==> val != nil && is[Expression](val) && wf(val) && val == parseTree(b)
+//@   ensures allCacheOK()
+//@   fresh
+//@   assigns grammar.UnaryExpression.Operator, grammar.UnaryExpression.Operand, grammar.BinaryExpression.Left, grammar.BinaryExpression.Operator, grammar.BinaryExpression.Right, grammar.MatchExpression.Operator, grammar.MatchExpression.Value, grammar.Selector.Type, grammar.Selector.Path, grammar.MatchValue.Raw, grammar.MatchValue.Converted, grammar.CollectionExpression.Op, grammar.CollectionExpression.Inner, grammar.CollectionNameBinding.Mode, grammar.CollectionNameBinding.Default, grammar.CollectionNameBinding.Index, grammar.CollectionNameBinding.Value
+
+//@ func MaxExpressions(maxExprCnt) (res)
+//@   ensures[C11] res == fn.grammar.MaxExpressions$1(maxExprCnt)
+//@   assigns nothing
